@@ -431,6 +431,35 @@ func monC09(op J, res any) (viol []Violation, nontrivial bool) {
 		}
 		if e, ok := m["err"]; ok {
 			c := jStr(e)
+			if !havePrev && strings.HasPrefix(c, "build:") && strings.Contains(","+strings.TrimPrefix(c, "build:")+",", ",vf,") {
+				// bootstrap refused for want of an agreed max-finalized value: is there really none?  (votes counted
+				// independently: every observation that survives parsing and flags the value valid has one)
+				votes := map[string]int{}
+				for _, ao := range aos {
+					if mercDropped(v, ao) {
+						continue
+					}
+					a := jObj(ao)
+					if v == 1 && jBool(a["mfbnValid"]) {
+						votes[jBig(a["mfbn"]).String()]++
+					} else if v != 1 && jBool(a["mftValid"]) {
+						votes[jBig(a["mft"]).String()]++
+					}
+				}
+				var best *big.Int
+				for k, n := range votes {
+					if w := mercBig(k); n >= f+1 && (best == nil || w.Cmp(best) > 0) {
+						best = w
+					}
+				}
+				limit := big.NewInt(int64(mercMaxU32))
+				if v == 1 {
+					limit = big.NewInt(mercMaxI64)
+				}
+				if best != nil && best.Cmp(limit) < 0 && best.Cmp(big.NewInt(-1)) >= 0 {
+					bad("C09/bootstrap-refused-despite-agreement", fmt.Sprintf("round %d: no previous report, %d observers agree on max-finalized value %s, yet the plugin refuses for want of an agreed value", i, votes[best.String()], best))
+				}
+			}
 			if strings.HasPrefix(c, "validate:") {
 				for _, t := range strings.Split(strings.TrimPrefix(c, "validate:"), ",") {
 					if t == "vf" {
